@@ -379,7 +379,11 @@ def o_term(rec, world, hist=None):
         return out
     if rec.aborted:
         return out
-    if sim.thread_deaths:
+    deaths = sim.thread_deaths
+    if rec.op.get("cfg", {}).get("progress") == "bundled-sinkfail":
+        # (the display's own thread ending with the sink's error has exited - that is all C07 asks of it)
+        deaths = [d for d in deaths if "SinkError" not in d[2]]
+    if deaths:
         out.append(V("thread-died", f"a thread created by run died with an exception: {sim.thread_deaths}", **tags))
         return out
     if sim.leaked:
